@@ -34,10 +34,10 @@ type Finding struct {
 // Known is one entry of known_findings.json.
 type Known struct {
 	Property    string `json:"property"`
-	Kind        string `json:"kind"`
+	Kind        string `json:"kind"`  // regular expression over the violation kind
 	Shape       string `json:"shape"` // regular expression over the shape descriptor
 	Description string `json:"description"`
-	re          *regexp.Regexp
+	re, kre     *regexp.Regexp
 }
 
 type knownFile struct {
@@ -57,13 +57,14 @@ func loadKnown() []*Known {
 	}
 	for _, k := range kf.Findings {
 		k.re = regexp.MustCompile("^(?:" + k.Shape + ")$")
+		k.kre = regexp.MustCompile("^(?:" + k.Kind + ")$")
 	}
 	return kf.Findings
 }
 
 func matchKnown(ks []*Known, f *Finding) *Known {
 	for _, k := range ks {
-		if k.Property == f.Property && k.Kind == f.Kind && k.re.MatchString(f.Shape) {
+		if k.Property == f.Property && k.kre.MatchString(f.Kind) && k.re.MatchString(f.Shape) {
 			return k
 		}
 	}
